@@ -20,7 +20,9 @@ class Fault(Exception):
 class FaultyFile(io.RawIOBase):
     """File object whose write call number `fail_at` (0-based) stores only `partial` bytes and then raises
     (mode 'raise') or returns the short count (mode 'short'; the history stops there).  Mode 'transient': that one
-    call raises with nothing written and every later call works again (the application carries on)."""
+    call raises with nothing written and every later call works again (the application carries on).  Mode
+    'short-continue': that one call stores `partial` bytes and returns the count; every later call works (a raw file
+    object under memory / quota pressure): the writer has to hand over the rest."""
 
     def __init__(self, fail_at=None, partial=0, mode="raise"):
         self.data = bytearray()
@@ -39,6 +41,11 @@ class FaultyFile(io.RawIOBase):
         if self.fail_at is not None and i == self.fail_at and self.mode == "transient":
             self.calls.append(len(b))
             raise Fault("injected transient write failure")
+        if self.fail_at is not None and i == self.fail_at and self.mode == "short-continue":
+            j = min(self.partial if self.partial >= 0 else len(b) + self.partial, max(len(b) - 1, 0))
+            self.data += b[:j]
+            self.calls.append(len(b))
+            return j
         if self.fail_at is not None and i == self.fail_at:
             j = min(self.partial if self.partial >= 0 else len(b) + self.partial, max(len(b) - 1, 0))
             self.data += b[:j]
@@ -71,7 +78,7 @@ def _idents(node, acc):
     return acc
 
 
-def layout_of(data, lost_at=None, lost=None):
+def layout_of(data, lost_at=None, lost=None, hole=False):
     """frame layout of a stream as the independent decoder sees it: kind, body size, and the descriptor ids a frame
     defines (DESC) or needs (REC).  ids number the distinct (name, fields) definitions in order of appearance; a REC's
     identifier resolves to the latest definition the WRITER began under it.  `lost` = (decoded node, body size) of a
@@ -81,6 +88,7 @@ def layout_of(data, lost_at=None, lost=None):
         items.insert(lost_at, (lost[0], lost[1], True))
     lay, dids, intent = [], {}, {}
     for d, n, islost in items:
+        ishole, islost = (islost and hole), (islost and not hole)
         if d[0] == "HDR":
             lay.append({"k": "HDR", "len": n, "ids": [], "lost": islost})
         elif d[0] == "DESC":
@@ -91,6 +99,7 @@ def layout_of(data, lost_at=None, lost=None):
         else:
             ids = sorted({intent.get(i, 0) for i in _idents(d, [])})
             lay.append({"k": "REC", "len": n, "ids": ids, "lost": islost})
+        lay[-1]["hole"] = ishole
     return lay
 
 
@@ -153,7 +162,7 @@ def run(tier):
     thorough = tier == "thorough"
     ctx.design("StreamBytes", "MC_StreamBytes.cfg", "exhaustive: <=4 frames after the header x body sizes {1,2} x every failing call x every partial count", actions=("Begin", "Body"), workers=4)
     if thorough:
-        for d, must in (("BoundaryRaises", True), ("TolerantBody", True), ("SkipAfterDesc", True), ("LostDescTolerated", True)):
+        for d, must in (("BoundaryRaises", True), ("TolerantBody", True), ("SkipAfterDesc", True), ("LostDescTolerated", True), ("IgnoresShortCount", True)):
             ctx.sensitivity("StreamBytes", f"MC_StreamBytes_dev_{d}.cfg", f"deviation {d} must violate IntactPrefix", "IntactPrefix", workers=4)
         r = ctx.tlc("StreamBytes", "MC_StreamBytes_dev_ShortLenRaises.cfg", "negative control: raising instead of ending inside a length prefix is NOT a violation", workers=4)
         if r.violations:
@@ -186,7 +195,7 @@ def run(tier):
             vias = ["fileobj", "lowlevel"] + (["path"] if thorough or cut % 5 == si % 5 else [])
             for via in vias:
                 out, how, exc = read_disk(data[:cut], via, tmp)
-                cases.append({"layout": lay, "cut": cut, "pin_boundary": True, "calls": [],
+                cases.append({"layout": lay, "cut": cut, "pin_boundary": True, "raw": True, "calls_comparable": True, "calls": [],
                               "obs": {"yielded": len(out), "identical": identical(out, written), "how": how}})
                 meta.append({"kind": "cut:" + via, "stream": si, "cut": cut, "exc": exc})
         # (b) gzip container: cut the compressed file; "on disk" = what a streaming zlib decoder recovers
@@ -202,7 +211,9 @@ def run(tier):
                 plain = b""
             for via in ["fileobj"] + (["path"] if thorough or cut % 3 == 0 else []):
                 out, how, exc = read_disk(gzb[:cut], via, tmp, ".records.gz")
-                cases.append({"layout": lay, "cut": len(plain), "pin_boundary": False, "calls": [],
+                # a compressed file that stops where the decoded bytes end exactly at a frame boundary (a writer that flushed and
+                # is still running, a file that lost its trailer) is a stream that ends at a frame boundary: it reads without error
+                cases.append({"layout": lay, "cut": len(plain), "pin_boundary": True, "raw": False, "calls_comparable": True, "calls": [],
                               "obs": {"yielded": len(out), "identical": identical(out, written), "how": how}})
                 meta.append({"kind": "gzcut:" + via, "stream": si, "cut": cut, "plain": len(plain), "exc": exc})
         # (c) every index of a failing / short fp.write x partial counts
@@ -219,20 +230,44 @@ def run(tier):
                                 break
                     except Fault:
                         pass
+                    except OSError:
+                        if not ff.tripped:      # the writer may refuse to go on after a write that took nothing
+                            raise
                     except Exception as e:
                         ctx.violation({"check": "writer-fault-handling", "exc": type(e).__name__}, {"stream": si, "call": k})
                     w.fp = None
                     disk = bytes(ff.data)
                     out, how, exc = read_disk(disk)
-                    cases.append({"layout": lay, "cut": len(disk), "pin_boundary": True, "calls": ff.calls,
+                    cases.append({"layout": lay, "cut": len(disk), "pin_boundary": True, "raw": True, "calls_comparable": True, "calls": ff.calls,
                                   "obs": {"yielded": len(out), "identical": identical(out, written) and data.startswith(disk), "how": how}})
                     meta.append({"kind": "fault:" + mode, "stream": si, "call": k, "partial": partial, "disk": len(disk), "exc": exc})
+        # (c2) a SHORT write after which the writer lives on: one fp.write call takes only part of its data and says so
+        for k in range(ncalls):
+            for partial in (0, 1, 2, 3, -1, -2, -4):
+                ff = FaultyFile(k, partial, "short-continue")
+                w = RecordStreamWriter(ff)
+                wrote_all = True
+                try:
+                    for r in recs:
+                        w.write(r)
+                except Exception as e:
+                    wrote_all = False      # refusing to go on is fine; going on over a hole is not
+                w.fp = None
+                disk = bytes(ff.data)
+                out, how, exc = read_disk(disk)
+                try:
+                    slay = layout_of(disk) if wrote_all else lay
+                except Exception:
+                    slay = lay                 # not even a frame sequence any more: judged against the intended layout
+                cases.append({"layout": slay if wrote_all else lay, "cut": len(disk), "pin_boundary": True, "raw": wrote_all, "calls_comparable": False, "calls": [],
+                              "obs": {"yielded": len(out), "identical": identical(out, written), "how": how}})
+                meta.append({"kind": "short-continue", "stream": si, "call": k, "partial": partial, "disk": len(disk), "exc": exc, "writer_went_on": wrote_all})
         # (d) a transient failure: one fp.write(length) call raises with nothing written and the application carries
         #     on with the next record -- the frame is absent, the stream stays well formed
         colliding = len({(f["k"], tuple(f["ids"])) for f in lay if f["k"] == "DESC"}) != len(
             {rc.descriptor_hash(d[1], d[2]) for d in rc.decode_stream(data) if d[0] == "DESC"})
         refnodes = rc.decode_stream(data)
-        for k in ([] if colliding else range(0, ncalls, 2)):
+        for k in ([] if colliding else range(0, ncalls)):
             ff = FaultyFile(k, 0, "transient")
             w = RecordStreamWriter(ff)
             okw = []
@@ -247,13 +282,19 @@ def run(tier):
             w.fp = None
             disk = bytes(ff.data)
             try:
-                tlay = layout_of(disk, k // 2, (refnodes[k // 2], lay[k // 2]["len"]))
+                if k % 2 == 0:
+                    tlay = layout_of(disk, k // 2, (refnodes[k // 2], lay[k // 2]["len"]))
+                else:
+                    # a failing BODY call: the length part is on disk, what follows is misaligned -- the frames behind the
+                    # hole are recovered from the bytes behind the dangling length
+                    at = sum(4 + f["len"] for f in lay[: k // 2]) + 4
+                    tlay = layout_of(disk[: at - 4] + disk[at:], k // 2, (refnodes[k // 2], lay[k // 2]["len"]), hole=True)
             except Exception as e:
                 ctx.violation({"check": "transient-layout", "stream": si, "call": k}, {"error": repr(e)})
                 continue
             for via in ("fileobj", "lowlevel"):
                 out, how, exc = read_disk(disk, via)
-                cases.append({"layout": tlay, "cut": len(disk), "pin_boundary": True, "calls": ff.calls,
+                cases.append({"layout": tlay, "cut": len(disk), "pin_boundary": True, "raw": True, "calls_comparable": True, "calls": ff.calls,
                               "obs": {"yielded": len(out), "identical": identical(out, okw), "how": how}})
                 meta.append({"kind": "transient:" + via, "stream": si, "call": k, "lost": tlay[k // 2]["k"], "disk": len(disk), "exc": exc})
     for c, m in zip(cases, meta):
